@@ -39,6 +39,13 @@ pub fn handle(req: &Value) -> Value {
             let r = libmathcat::verif::verif_number_patterns(&g("text"), &g("block"), &g("decimal"));
             json!({"r":"ok","v":r.to_vec()})
         }
+        "clean_only" => {
+            let xml = req.get("xml").and_then(|v| v.as_str()).unwrap_or("");
+            match libmathcat::verif::verif_clean_only(xml) {
+                Ok(s) => json!({"r":"ok","v":s}),
+                Err(e) => json!({"r":"err","kind":"clean","msg":libmathcat::errors_to_string(&e)}),
+            }
+        }
         _ => json!({"r":"err","kind":"bad-op","msg":format!("unknown hook '{}'", which)}),
     }
 }
